@@ -19,7 +19,7 @@
 using namespace pbt;
 
 enum { LOG = 0, SET_LEVEL = 1, FORMAT_DIRECT = 2, GET_COND = 3 };
-enum { PIPELINE_FG = 0, NOALLOC = 1 };
+enum { PIPELINE_FG = 0, NOALLOC = 1, STANDARD = 2 };
 
 static const char *LEVELS[] = {"NONE", "FATAL", "ERROR", "WARN", "INFO", "DEBUG", "TRACE"};
 
@@ -43,7 +43,7 @@ static void register_subjects() {
 static Case gen_case() {
     Case c;
     // cfg: logger kind, date format (0 rfc822, 1 iso, 2 iso basic), initial level
-    c.cfg = {weighted({6, 4}), pick(0, 2), pick(0, 6)};
+    c.cfg = {weighted({5, 3, 2}), pick(0, 2), pick(0, 6)};
     c.ops = op_list(40, [] {
         switch (weighted({10, 3, 4, 1})) {
         case 0: {
@@ -180,7 +180,7 @@ static int call_format(struct aws_logging_standard_formatting_data *d, ...) {
 
 static void run(const Case &c, Ctx &ctx) {
     galloc::reset();
-    int kind = (int)(c.c(0) % 2);
+    int kind = (int)(c.c(0) % 3);
     int df = (int)(c.c(1) % 3);
     enum aws_date_format fmts[] = {AWS_DATE_FORMAT_RFC822, AWS_DATE_FORMAT_ISO_8601, AWS_DATE_FORMAT_ISO_8601_BASIC};
     int level = (int)(c.c(2) % 7);
@@ -201,12 +201,20 @@ static void run(const Case &c, Ctx &ctx) {
         PBT_CHECK(aws_log_channel_init_foreground(&channel, alloc, &writer) == AWS_OP_SUCCESS);
         PBT_CHECK(aws_logger_init_from_external(&logger, alloc, &formatter, &channel, &writer, (enum aws_log_level)level) == AWS_OP_SUCCESS);
     } else {
-        df = 1; // the no-alloc logger always uses ISO 8601
+        df = 1; // the no-alloc logger and the standard logger always use ISO 8601
         file = open_memstream(&filebuf, &filesz);
         PBT_CHECK(file != nullptr);
         struct aws_logger_standard_options lo = {(enum aws_log_level)level, nullptr, file};
-        PBT_CHECK(aws_logger_init_noalloc(&logger, alloc, &lo) == AWS_OP_SUCCESS);
+        if (kind == NOALLOC) PBT_CHECK(aws_logger_init_noalloc(&logger, alloc, &lo) == AWS_OP_SUCCESS);
+        // the standard logger: default formatter + background channel (a real thread here) + the library's file writer;
+        // lines arrive asynchronously, so they are checked after clean-up, which must flush everything accepted
+        else PBT_CHECK(aws_logger_init_standard(&logger, alloc, &lo) == AWS_OP_SUCCESS);
     }
+    struct Pending {
+        int lv;
+        std::string sname, msg;
+    };
+    std::vector<Pending> pending;
     aws_logger_set(&logger);
 
     size_t expected_lines = 0;
@@ -275,6 +283,11 @@ static void run(const Case &c, Ctx &ctx) {
                 break;
             }
             bool accepted = level != 0 && lv <= level;
+            if (kind == STANDARD) {
+                if (accepted) pending.push_back(Pending{lv, sname, msg});
+                else any_filtered = true;
+                break;
+            }
             auto lines = fetch_new_lines();
             if (!accepted) {
                 any_filtered = true;
@@ -361,6 +374,25 @@ static void run(const Case &c, Ctx &ctx) {
         aws_log_channel_clean_up(&channel);
         aws_log_formatter_clean_up(&formatter);
     } else {
+        if (kind == STANDARD) {
+            // clean-up has returned: every accepted line is in the file, whole, once, in call order
+            fflush(file);
+            std::vector<std::string> got;
+            size_t start = 0;
+            for (size_t i = 0; i < filesz; i++)
+                if (filebuf[i] == '\n') {
+                    got.emplace_back(filebuf + start, i + 1 - start);
+                    start = i + 1;
+                }
+            PBT_CHECK(start == filesz, "the log file ends with %zu bytes that are not newline-terminated", filesz - start);
+            PBT_CHECK(got.size() == pending.size(), "standard logger: %zu lines in the file after clean-up, %zu calls were accepted", got.size(),
+                      pending.size());
+            for (size_t i = 0; i < got.size(); i++) {
+                bool cut = false;
+                check_line(got[i], pending[i].lv, pending[i].sname, pending[i].msg, 1, false, 0, &cut);
+            }
+            ctx.tag("standard_logger_file_writer");
+        }
         fclose(file);
         free(filebuf);
     }
@@ -370,7 +402,7 @@ static void run(const Case &c, Ctx &ctx) {
     if (any_cut) ctx.tag("truncated_line");
     if (any_level_change) ctx.tag("level_change_between_calls");
     if (any_filtered) ctx.tag("filtered_call");
-    ctx.tag(kind == NOALLOC ? "noalloc_logger" : "pipeline_foreground");
+    ctx.tag(kind == NOALLOC ? "noalloc_logger" : kind == STANDARD ? "standard_logger" : "pipeline_foreground");
     ctx.nontrivial = any_cut || (any_level_change && any_filtered);
 }
 
